@@ -10,6 +10,8 @@ import (
 	"os"
 	"path/filepath"
 	"sort"
+	"strings"
+	"sync/atomic"
 	"testing"
 	"time"
 
@@ -98,13 +100,21 @@ func writeReplay(prop string, c any, v *Violation) string {
 
 // v2's writer goroutines call os.Exit(1) right after logger.Error: print the VIOLATION line first.
 type exitLogger struct {
-	prop string
-	path string
+	prop               string
+	path               string
+	leafDone, treeDone int32 // background prune passes that v2 reported as finished (or skipped)
 }
 
-func (l *exitLogger) Info(string, ...any)  {}
-func (l *exitLogger) Warn(string, ...any)  {}
-func (l *exitLogger) Debug(string, ...any) {}
+func (l *exitLogger) Info(string, ...any) {}
+func (l *exitLogger) Warn(string, ...any) {}
+func (l *exitLogger) Debug(msg string, _ ...any) {
+	switch {
+	case strings.HasPrefix(msg, "done leaf prune"), strings.HasPrefix(msg, "skipping leaf prune"):
+		atomic.AddInt32(&l.leafDone, 1)
+	case strings.HasPrefix(msg, "done tree prune"):
+		atomic.AddInt32(&l.treeDone, 1)
+	}
+}
 func (l *exitLogger) Error(msg string, kv ...any) {
 	fmt.Printf("VERIF-VIOLATION property=%s replay=%s observer=v2.logger_error :: v2 background writer reported: %s %v\n", l.prop, l.path, msg, kv)
 	writeStats()
@@ -138,6 +148,7 @@ type v2Stats struct {
 	checkpoints, nonCheckpointCommits, removals, rotations int
 	reloads, replayedReloads, replayedWithRemoval         int
 	f14Skipped, queries, continued, snapshots, pruned     int
+	pruneNotFinished                                      int
 }
 
 type verModel struct {
@@ -370,7 +381,17 @@ func runV2(c V2Case) (v *Violation, st v2Stats) {
 	}
 	// ---------------- C20: close, reopen, load every retained target
 	if st.pruned > 0 {
-		time.Sleep(40 * time.Millisecond) // let the background pruning run; what must survive is asserted, not what must go
+		// Closing the database while the background pruning loops are still working makes them fail on the closed
+		// connection, and v2 then exits the process: wait until v2 reports both prune passes as done (bounded).
+		deadline := time.Now().Add(20 * time.Second)
+		for (atomic.LoadInt32(&lg.leafDone) < int32(st.pruned) || atomic.LoadInt32(&lg.treeDone) < int32(st.pruned)) && time.Now().Before(deadline) {
+			time.Sleep(2 * time.Millisecond)
+		}
+		if atomic.LoadInt32(&lg.leafDone) < int32(st.pruned) || atomic.LoadInt32(&lg.treeDone) < int32(st.pruned) {
+			st.pruneNotFinished++
+			closed = true // leak the handle rather than close under the pruner; nothing further is asserted for this case
+			return nil, st
+		}
 	}
 	if err := tr.Close(); err != nil {
 		return viol("close", "Close: %v", err), st
@@ -760,6 +781,7 @@ func TestC20(t *testing.T) {
 		Count("C20", "continued_versions", st.continued)
 		Count("C20", "snapshots_loaded", st.snapshots)
 		Count("C20", "prunes", st.pruned)
+		Count("C20", "prune_not_finished_in_20s_case_not_reloaded", st.pruneNotFinished)
 		RecordCase("C20", c, st.replayedWithRemoval >= 1,
 			map[string]bool{"shard": c.Shard, fmt.Sprintf("ci_%d", c.CI): true, "pruned": st.pruned > 0, "snapshot": st.snapshots > 0, "continued": st.continued > 0, "replayed_reload": st.replayedReloads > 0})
 	})
